@@ -2,6 +2,7 @@ import BSModel.Driver.Util
 import BSModel.Model.Copy
 /-! line protocol of C12 (copies, equality)
 
+    c12 setitem  <dictCls> <key> <val>           what `d[key] = val` stores in a dict of that class (`coerce`): <val> | drop
     c12 copy     <inh> <next> <path> <tree>      `copyImpl` on the node at <path>; reply `<next'> <tree>` | `underflow`
     c12 copyspec <inh> <next> <path> <tree>      the same through `copySpec`
     c12 soupcopy <inh> <next> <fresh: a T node without children> <tree>     `copySoupImpl` on the root
@@ -12,9 +13,11 @@ import BSModel.Model.Copy
     str    := e | <cps>                          ostr := N | str         onat := N | <n>        obool := N | 0 | 1
     tree   := S <id> <cls> <str>
             | T <id> <name:str> <pfx:ostr> <ns:ostr> <attrs> <settings> <parserClass:onat> <dictCls> <avlCls> <nkids> tree*nkids
-    attrs  := - | entry;entry…    entry := <key:str>=s:<str> | <key:str>=l:<lid>:<cls>:<item|item…>     (no items: empty)
+    attrs  := - | entry;entry…    entry := <key>=<val>
+    key    := <str> | <str>~<prefix:ostr>~<name:ostr>~<namespace:ostr>      (the latter: a NamespacedAttribute)
+    val    := s:<cls>:<str> | l:<lid>:<cls>:<item|item…> (no items: empty) | i:<int> | b:<0|1> | n
     settings := canBeEmpty.cdata.preserveWs.interesting.hidden.sourceline.sourcepos.knownXml.namespaces
-    edit   := setattr <tag> <key> <val as in entry> | delattr <tag> <key> | lappend <lid> <item> | lset <lid> <items>
+    edit   := setattr <tag> <key> <val> | delattr <tag> <key> | lappend <lid> <item> | lset <lid> <items>
             | setname <tag> <name> | insert <tag> <pos> <tree> | clear <tag> | remove <id> | replace <id> <tree>
     path   := r | i.j.k -/
 namespace BS.Drv.C12
@@ -37,22 +40,37 @@ def showOB : Option Bool → String
 
 def parseVal (s : String) : AVal :=
   match s.splitOn ":" with
-  | ["s", v] => .str (pstr v)
+  | ["s", c, v] => .str c.toNat! (pstr v)
   | ["l", lid, c, items] => .list lid.toNat! c.toNat! (if items.isEmpty then [] else (items.splitOn "|").map pstr)
-  | _ => .str []
+  | ["i", n] => .int n.toInt!
+  | ["b", b] => .bool (b == "1")
+  | ["n"] => .none
+  | _ => .str 0 []
 
 def showVal : AVal → String
-  | .str s => "s:" ++ showP s
+  | .str c s => s!"s:{c}:" ++ showP s
   | .list lid c items => s!"l:{lid}:{c}:" ++ "|".intercalate (items.map showP)
+  | .int n => s!"i:{n}"
+  | .bool b => "b:" ++ bit b
+  | .none => "n"
 
-def parseAttrs (s : String) : List (PStr × AVal) :=
+def parseKey (s : String) : PStr × KMeta :=
+  match s.splitOn "~" with
+  | [k, p, n, ns] => (pstr k, some ⟨ostr p, ostr n, ostr ns⟩)
+  | _ => (pstr s, none)
+
+def showKey (k : PStr) : KMeta → String
+  | none => showP k
+  | some nk => showP k ++ "~" ++ showOP nk.pfx ++ "~" ++ showOP nk.name ++ "~" ++ showOP nk.ns
+
+def parseAttrs (s : String) : Attrs :=
   if s == "-" then [] else (s.splitOn ";").filterMap fun e =>
     match e.splitOn "=" with
-    | [k, v] => some (pstr k, parseVal v)
+    | [k, v] => let km := parseKey k; some (km.1, km.2, parseVal v)
     | _ => none
 
-def showAttrs (l : List (PStr × AVal)) : String :=
-  if l.isEmpty then "-" else ";".intercalate (l.map fun kv => showP kv.1 ++ "=" ++ showVal kv.2)
+def showAttrs (l : Attrs) : String :=
+  if l.isEmpty then "-" else ";".intercalate (l.map fun kv => showKey kv.1 kv.2.1 ++ "=" ++ showVal kv.2.2)
 
 def parseSettings (s : String) : Settings :=
   match s.splitOn "." with
@@ -115,7 +133,7 @@ def showEv : Ev → String
   | .stop => "x"
 
 def parseEdit : List String → Option (Edit × List String)
-  | "setattr" :: t :: k :: v :: rest => some (.setAttr t.toNat! (pstr k) (parseVal v), rest)
+  | "setattr" :: t :: k :: v :: rest => let km := parseKey k; some (.setAttr t.toNat! km.1 km.2 (parseVal v), rest)
   | "delattr" :: t :: k :: rest => some (.delAttr t.toNat! (pstr k), rest)
   | "lappend" :: l :: item :: rest => some (.listAppend l.toNat! (pstr item), rest)
   | "lset" :: l :: items :: rest =>
@@ -145,6 +163,11 @@ def copyWith (f : Option Bool → Nat → Node → Option (Node × Nat)) (inh ne
   | _ => "bad-tree"
 
 def handle : List String → String
+  | ["setitem", cls, k, v] =>
+    let km := parseKey k
+    match coerce cls.toNat! km.1 km.2 (parseVal v) with
+    | none => "drop"
+    | some v' => showVal v'
   | "copy" :: inh :: next :: path :: toks => copyWith copyImpl inh next path toks
   | "copyspec" :: inh :: next :: path :: toks => copyWith (fun i n t => some (copySpec i n t)) inh next path toks
   | "soupcopy" :: inh :: next :: toks =>
